@@ -1,6 +1,6 @@
 """C02 - outbound framing (R02.1 - R02.7)."""
 import mir
-from mir import op_place, op_str, place_fields
+from mir import op_place, op_str, place_fields, place_is_local
 import common as C
 
 WC = 'write_connection::WriteConnection'
@@ -328,6 +328,70 @@ def check_crate(fx, rep, crate, cfg):
                 rep.bad('R02.6', '%s|buffer-%s|%s' % (body.path, t['callee']['name'], cfg), C.where(body, b),
                         'the write buffer is shrunk/replaced by %s' % t['callee'].get('name'))
     rep.ok('R02.6', 'buffer-field-writers|%s' % cfg, '-', 'no assignment / truncation of the buffer field outside the constructor')
+    # ---- R02.9 queued bytes are never rewritten: who may borrow the buffer mutably, and for what
+    GROW = ('extend', 'extend_from_slice', 'resize', 'resize_with', 'reserve', 'reserve_exact', 'push')
+    VIEW = ('deref_mut', 'as_mut_slice', 'as_mut', 'borrow_mut')
+    n_borrows = 0
+    for body in crate.bodies:
+        if body.in_test or (body.name == 'new' and body.kind == 'AssocFn'):
+            continue
+        for b, i, s in body.iter_assigns():
+            rv = s['rv']
+            if rv['k'] not in ('ref', 'rawptr') or not rv.get('mut'):
+                continue
+            flds = mir.place_fields(rv['place'])
+            if not flds or not (flds[-1][0] and WC in flds[-1][0] and flds[-1][1] == buf_field):
+                continue
+            n_borrows += 1
+            work = [(s['place']['l'], True)]
+            seen = set()
+            bad = None
+            used = False
+            while work and bad is None:
+                l, may_grow = work.pop()
+                if l in seen:
+                    continue
+                seen.add(l)
+                for bb, ii, ss in body.iter_assigns():
+                    if ss['rv']['k'] == 'use' and (op_place(ss['rv']['op']) or {}).get('l') == l and not (op_place(ss['rv']['op']) or {}).get('p') and not ss['place'].get('p'):
+                        work.append((ss['place']['l'], may_grow))
+                    elif ss['rv']['k'] in ('ref', 'rawptr') and ss['rv']['place'].get('l') == l and (ss['rv']['place'].get('p') or [None])[0] == '*':
+                        used = True
+                        if ss['rv'].get('mut') and ss['rv']['place'].get('p') == ['*']:
+                            work.append((ss['place']['l'], may_grow))       # a shared reborrow only reads
+                        elif ss['rv'].get('mut'):
+                            bad = (bb, 'a part of it is borrowed mutably through the reference')
+                    elif ss['place'].get('l') == l and ss['place'].get('p') and ss['place']['p'][0] == '*':
+                        bad = (bb, 'a store through the borrowed buffer')
+                for bb, t in body.iter_terms('call'):
+                    for k, a in enumerate(t['args']):
+                        q = op_place(a)
+                        if not q or q['l'] != l or q.get('p'):
+                            continue
+                        used = True
+                        nm = t['callee'].get('name')
+                        if k == 0 and nm == 'index_mut':
+                            # one element (which one: R02.1, the terminator) or the free tail buffer[pos..] (R02.3, the serializer's slice)
+                            ity = ((op_place(t['args'][1]) or {}).get('ty') or t['args'][1].get('ty') or '') if len(t['args']) > 1 else ''
+                            if ity.replace(' ', '') == 'usize':
+                                continue
+                            rng = body.trace(t['args'][1]) if len(t['args']) > 1 else {}
+                            if rng.get('kind') == 'aggr' and rng['rv'].get('adt', '').endswith('RangeFrom') and C.trace_field(body, rng['rv']['ops'][0], WC) == pos_field:
+                                continue
+                            bad = (bb, 'sliced with %s (only buffer[pos..], the free tail, may be handed out mutably)' % (ity or 'an unrecognised range'))
+                            break
+                        if k == 0 and nm in GROW and may_grow:
+                            continue                    # appends behind the queued bytes
+                        if k == 0 and nm in VIEW and place_is_local(t['dest']):
+                            work.append((t['dest']['l'], False))
+                            continue
+                        bad = (bb, 'handed to %s' % (t['callee'].get('def') or nm))
+            rep.check(bad is None and used, 'R02.9', '%s|mutable-borrow-of-buffer|%d|%s' % (body.path, n_borrows, cfg), C.where(body, b, i),
+                      'the write buffer is borrowed mutably only to index it (terminator / serializer slice, see R02.1 and R02.3) or to grow it',
+                      'the write buffer is borrowed mutably and %s: bytes of messages that are already queued (buffer[..pos]) can be rewritten before they are flushed '
+                      '(accepted uses: indexing, extend / extend_from_slice / resize / reserve)' % (bad[1] if bad else 'its use is not recognised'),
+                      {'use': bad[1] if bad else None})
+    rep.floor('R02.9', 2, 'mutable borrows of the write buffer (serializer slice, terminator)')
     # ---- R02.4 flush
     for body, writes in flush_bodies:
         fk = body.path
@@ -422,6 +486,7 @@ def check(fx, rep, tier):
     rep.rule('R02.5', 'chain construction enqueues without flushing; send flushes once before the stream; send_* = enqueue then flush')
     rep.rule('R02.6', 'fill position is reset only after a successful transport write (also through helpers); buffer field never replaced or truncated; no other pos writers')
     rep.rule('R02.8', 'no raw control character or NUL can appear inside a document: every string fragment reaches the writer through the escape scanner with the RFC 8259 table (E1, E2, E2b of C03)')
+    rep.rule('R02.9', 'queued bytes are never rewritten: the write buffer is borrowed mutably only to index it (serializer slice, terminator) or to grow it')
     rep.rule('R02.7', 'room for the terminator: (pos+len vs buffer.len()) test with growth on the full edge precedes the terminator store')
     for cfg in ['full'] + (['ws', 'nostd'] if tier == 'thorough' else []):
         check_crate(fx, rep, fx.crate('zlink_core', cfg), cfg)
